@@ -90,6 +90,15 @@ var extShapes = []string{
 	"V != true",
 	"{k: V}.k == false",
 	"is_bool(V) ? string(V) : \"-\"",
+	// round 10 (share.go): the global named more than once inside one value
+	"[V, V]",
+	"{p: V, q: V}",
+	"[V, [V], {k: V}]",
+	"immutable([V, V])",
+	"func(z) { return [z, z] }(V)",
+	"{l: V, r: {c: V, d: [V]}}",
+	"immutable({p: V, q: [V, V]})",
+	"[copy(V), V]",
 }
 
 func ext(shape int, dst, v string) stmt { return stmt{K: "ext", N: shape, Dst: dst, Var: v} }
@@ -145,6 +154,20 @@ func extEval(shape int, v *TV) *TV {
 		return ti(-1)
 	case 7:
 		return tb(!isT)
+	case 10, 14:
+		return &TV{K: "a", Kids: []*TV{v, v}}
+	case 11:
+		return &TV{K: "m", Keys: []string{"p", "q"}, Kids: []*TV{v, v}}
+	case 12:
+		return &TV{K: "a", Kids: []*TV{v, {K: "a", Kids: []*TV{v}}, {K: "m", Keys: []string{"k"}, Kids: []*TV{v}}}}
+	case 13:
+		return &TV{K: "ia", Kids: []*TV{v, v}}
+	case 15:
+		return &TV{K: "m", Keys: []string{"l", "r"}, Kids: []*TV{v, {K: "m", Keys: []string{"c", "d"}, Kids: []*TV{v, {K: "a", Kids: []*TV{v}}}}}}
+	case 16:
+		return &TV{K: "im", Keys: []string{"p", "q"}, Kids: []*TV{v, {K: "a", Kids: []*TV{v, v}}}}
+	case 17:
+		return &TV{K: "a", Kids: []*TV{copyTV(v), v}}
 	}
 	switch {
 	case isT:
